@@ -57,9 +57,9 @@ binnify_sym, binnify_real = both(binnify_body)
 
 def _binnify_cases(tier):
     out = []
-    for b in ((1, 2, 3) if tier == "quick" else (1, 2, 3, 4, 5, 7, 8, 10, 16, 100, 1000)):
+    for b in ((1, 2, 3) if tier == "quick" else (1, 2, 3, 4, 5, 7, 8, 10, 16, 100, 1000, 10**6, 2**31 - 1, 2**31, 3 * 10**9)):
         for nch in ((1, 2) if tier == "quick" else (1, 2, 3, 4)):
-            out.append(dict(b=b, nchroms=nch, maxbins=3 if tier == "quick" else (5 if nch < 3 else 3)))
+            out.append(dict(b=b, nchroms=nch, maxbins=3 if tier == "quick" else (8 if nch < 3 else 4)))
     return out
 
 
@@ -99,6 +99,15 @@ def _binsize_cases(tier):
     return [dict(layout=list(l), wmax=5 if sum(l) <= 4 else 4) for l in layouts(3, 6) if not (len(l) == 3 and sum(l) > 5)]
 
 
+def _chromsizes_cases(tier):
+    out = _binsize_cases(tier)
+    if tier != "quick":
+        # widths without a practical bound (genome-scale coordinates, beyond int32): get_chromsizes only reads the last end
+        # (get_binsize collects the widths in a set, which the executor can only do for enumerable values)
+        out = out + [dict(layout=list(l), wmax=10**10) for l in layouts(3, 5)]
+    return out
+
+
 # ---------------------------------------------------------------------------
 def chromsizes_body(env, p):
     util = env.mod("util")
@@ -126,13 +135,13 @@ chromsizes_sym, chromsizes_real = both(chromsizes_body)
 CHECKS = [
     Check("binnify", _binnify_cases, binnify_sym, binnify_real, labels=("multiple_of_width", "shorter_than_width"),
           doc="util.binnify on symbolic chromosome lengths; width concrete per case (division by a constant)",
-          bounds=dict(quick="width 1..3, 1-2 chromosomes, <=3 bins each", thorough="widths up to 1000, 1-4 chromosomes, <=5 bins each"),
+          bounds=dict(quick="width 1..3, 1-2 chromosomes, <=3 bins each", thorough="widths up to 3e9 (across the int32 limit), 1-4 chromosomes, <=8 bins each"),
           stubs=("E2 int/int true division then ceil: exact rational",)),
     Check("get_binsize", _binsize_cases, binsize_sym, binsize_real, labels=("long_last_bin", "reports_size"),
           doc="util.get_binsize on every valid bin table of each layout with symbolic widths",
-          bounds=dict(quick="<=2 chromosomes, <=4 bins, widths 1..3", thorough="<=3 chromosomes, <=6 bins, widths 1..4/5")),
-    Check("get_chromsizes", _binsize_cases, chromsizes_sym, chromsizes_real,
-          doc="util.get_chromsizes == end of last bin per chromosome", bounds=dict(quick="as get_binsize")),
+          bounds=dict(quick="<=2 chromosomes, <=4 bins, widths 1..3", thorough="<=3 chromosomes, <=6 bins, widths 1..4/5 (widths enter a Python set: enumerable values only)")),
+    Check("get_chromsizes", _chromsizes_cases, chromsizes_sym, chromsizes_real,
+          doc="util.get_chromsizes == end of last bin per chromosome", bounds=dict(quick="as get_binsize", thorough="as get_binsize, plus <=5 bins with widths 1..1e10")),
 ]
 
 MUTANTS = [
